@@ -3,6 +3,7 @@ package main
 import (
 	"encoding/json"
 	"fmt"
+	"math"
 
 	"github.com/yaricom/goNEAT/v4/neat/genetics"
 	"github.com/yaricom/goNEAT/v4/neat/network"
@@ -155,8 +156,9 @@ func c04Apply(cs *c04Case, a, b *genetics.Genome) (*genetics.Genome, error) {
 	}
 	if cs.Layout == 1 {
 		// in the second node layout an unequal pair of fitness values is the closest possible one:
-		// 0.3 against 0.1+0.2 (one unit in the last place apart) - still not a tie
-		f1, f2 = 0.1+0.2, 0.1+0.2
+		// 0.3 against the next float64 above it (what 0.1+0.2 evaluates to) - still not a tie
+		hi := math.Nextafter(0.3, 1)
+		f1, f2 = hi, hi
 		switch cs.Fit {
 		case 0:
 			f1 = 0.3
